@@ -64,6 +64,28 @@ var idMutations = []struct {
 	{"id-nul", "a\x00b", false}, {"id-50-mixed", strOf(25, "A_") /* 50 */, true}, {"id-51-mixed", strOf(25, "A_") + "-", false},
 }
 
+// every ASCII character outside [A-Za-z0-9_-] (and a few non-ASCII ones) must be refused inside an id
+func init() {
+	for ch := 0; ch < 128; ch++ {
+		c := byte(ch)
+		if (c >= 'A' && c <= 'Z') || (c >= 'a' && c <= 'z') || (c >= '0' && c <= '9') || c == '_' || c == '-' {
+			continue
+		}
+		idMutations = append(idMutations, struct {
+			name  string
+			id    string
+			valid bool
+		}{fmt.Sprintf("id-char-0x%02x", ch), "a" + string(rune(ch)) + "b", false})
+	}
+	for _, rn := range []rune{0x80, 0xe9, 0x2028, 0xff21, 0x1f600} {
+		idMutations = append(idMutations, struct {
+			name  string
+			id    string
+			valid bool
+		}{fmt.Sprintf("id-char-U+%04X", rn), "a" + string(rn), false})
+	}
+}
+
 func keyMutations(r *fw.Rand) []mut {
 	ms := []mut{}
 	for _, im := range idMutations {
